@@ -4,6 +4,7 @@ import (
 	"context"
 	"io"
 	"math/rand/v2"
+	"sync"
 
 	"github.com/glebziz/fs_db/internal/model"
 )
@@ -47,6 +48,7 @@ type UseCase struct {
 	txRepo txRepository
 
 	idGen   generator
+	randM   sync.Mutex
 	randGen *rand.Rand
 }
 
